@@ -95,6 +95,18 @@ class Source:
                 s += 1
         return Region(self, s, e)
 
+    def if_else(self, fn_region, first):
+        """Region of the whole `if .. { } else { }` chain whose head contains `first` (unique in fn_region)."""
+        a = self._unique(first, fn_region.start, fn_region.end)
+        ls = self.text.rfind("\n", 0, a) + 1
+        e = match_brace(self.text, self.text.index("{", a))
+        while True:
+            m = re.match(r"\s*else\s*(if[^{]*)?\{", self.text[e:])
+            if not m:
+                break
+            e = match_brace(self.text, e + m.end() - 1)
+        return Region(self, ls, e)
+
     def between(self, fn_region, after, last):
         """Statement slice: everything after the statement text `after` up to the end of the statement `last`."""
         a = self._unique(after, fn_region.start, fn_region.end) + len(after)
